@@ -334,8 +334,9 @@ def program(draw):
     if draw(st.integers(0, 7)) == 0:
         # the final expression shares its line with a statement
         env.kinds.add('semicolon')
-        lines.append(f'zt = {last}')
-        last = "zt + len(';')"
+        # (the final expression has an effect of its own: it must run exactly once)
+        lines.append(f'zt = [{last}]')
+        last = "(zt.append(0) or len(zt)) + zt[0] + len(';')"
         shared_line = True
     else:
         shared_line = False
